@@ -274,3 +274,96 @@ class DisconnectContract(_InstBase):
 
 CONTRACTS = [GetConnRef(), GetPortRef(), ReplaceContract(), ConnectContract(), DisconnectContract()]
 INLINE = {"hdl21.connect:is_connectable"}
+
+
+# ------------------------------------------------------------------------------------------------ establishment
+class PureOpaque(Contract):
+    raises = ()
+
+    def __init__(self, key):
+        self.key = key
+
+    def scenarios(self, eng):
+        return []
+
+
+class InstanceInit(Contract):
+    """Instance.__init__ (and the _Instance base constructor it runs) establishes Inv_conn / Inv_refs for the new
+    object: no connections, its own empty Refs, initialised flag set - given that nothing refers to it yet."""
+    key = "hdl21.instance:Instance.__init__"
+    props = ("C04",)
+    pure = False
+    raises = (RuntimeError,)
+    returns = "none"
+
+    def scenarios(self, eng):
+        from hdl21.module import Module
+        from hdl21.primitives import PrimitiveCall
+        from hdl21.external_module import ExternalModuleCall
+
+        def setup(eng, st):
+            eng.field_classes.update(FIELD_CLASSES)
+            me = st.alloc(Instance)
+            st.heap.put("_initialized", me.z, z3.BoolVal(False))
+            of = sym_ref(st, "of", (Module, PrimitiveCall, ExternalModuleCall))
+            return {"self": me, "_": (), "__": {"of": of, "name": SStr(z3.String("nm"))}}
+        yield Scenario("fresh-object", setup)
+
+    def pre(self, eng, st, a):
+        cp = st.heap.arr("_connected_ports")
+        c = z3.Int("qc2")
+        s = z3.String("qs2")
+        return z3.And(inv_conn(st), inv_refs(st), z3.ForAll([c, s], z3.Not(z3.Select(cp[c], a.self.z, s))))
+
+    def p_inv(self, eng, st0, st, a, res):
+        conns = st.heap.get("conns", a.self.z)
+        s = z3.String("qs2")
+        return z3.And(inv_conn(st), inv_refs(st), z3.ForAll([s], z3.Select(conns, s) == NULL),
+                      st.heap.get("_initialized", a.self.z))
+    posts = property(lambda self: [("establishes-invariants", self.p_inv)])
+
+
+def init_engine():
+    return mk_engine(contracts=[InstanceInit(), PureOpaque("hdl21.source_info:source_info")],
+                     inline={"hdl21.instance:_Instance.__init__", "hdl21.instantiable:is_instantiable"},
+                     field_classes=FIELD_CLASSES)
+
+
+VERIFY_INIT = [InstanceInit()]
+
+
+def audit_ownership():
+    """Representation ownership: no code in hdl21/ outside _Instance.connect/replace/disconnect stores into a `conns`
+    dict or mutates a `_connected_ports` set (re-derived from the AST every run). -> offenders"""
+    import ast
+    import os
+    from pyvc import loader
+    root = os.path.join(loader.REPO, "hdl21")
+    mut = {"add", "remove", "discard", "clear", "pop", "popitem", "update", "setdefault"}
+    allowed = set()
+    for name in ("connect", "replace", "disconnect"):
+        ext = loader.extract(f"hdl21.instance:_Instance.{name}")
+        allowed |= {(ext.path, ln) for ln in range(ext.lines[0], ext.lines[1] + 1)}
+    off = []
+    for dp, _, fs in os.walk(root):
+        if "tests" in dp:
+            continue
+        for f in fs:
+            if not f.endswith(".py"):
+                continue
+            p = os.path.realpath(os.path.join(dp, f))
+            tree = ast.parse(open(p).read())
+            for n in ast.walk(tree):
+                hit = None
+                if isinstance(n, (ast.Assign, ast.AugAssign, ast.Delete)):
+                    tg = n.targets if isinstance(n, (ast.Assign, ast.Delete)) else [n.target]
+                    for t_ in tg:
+                        if isinstance(t_, ast.Subscript) and isinstance(t_.value, ast.Attribute) and \
+                                t_.value.attr in ("conns", "_connected_ports"):
+                            hit = f"store into .{t_.value.attr}[...]"
+                if isinstance(n, ast.Call) and isinstance(n.func, ast.Attribute) and n.func.attr in mut and \
+                        isinstance(n.func.value, ast.Attribute) and n.func.value.attr in ("conns", "_connected_ports"):
+                    hit = f".{n.func.value.attr}.{n.func.attr}()"
+                if hit and (p, n.lineno) not in allowed:
+                    off.append((p, n.lineno, hit))
+    return off
